@@ -53,6 +53,11 @@ def binregions(rng, q):
         for k in (0, 1, 2, 3, 5, 12, 30): pts.append((n, k))
     return pts
 
+def c14_priority(rng, tier, env):
+    """cases C14 replays on every build variant: fib/fib2/lucnum/lucnum2 for every n up to 1300 (their code has branches compiled only where a
+    native addlsh1_n / sublsh1_n kernel exists, and the failing n are those where F[k] has just crossed a limb boundary: about 1% of all n, A98)"""
+    for n in range(0, 1300): yield ('fib', n, 0)
+
 def specs(rng, tier, wid, nw, env):
     q = tier == 'quick'; th = env.th
     k = 0
